@@ -6,8 +6,9 @@ CONSTANTS
  Vars = {"n"}
  Ns = {2, 3}
  MsgVecs <- MV11
- CCoins <- AllZq
+ CCoins <- C3b
  SCoins <- C2a
  Tamper = FALSE
+ PowM <- TabPowM
 INVARIANTS Correct HonestAbort Refusal OneOnly Curious CuriousPairs
 CHECK_DEADLOCK FALSE
